@@ -214,6 +214,11 @@ def verus_fn_name(addr):
 KEYWORDS = set('if while for loop match return let mut ref fn as in else break continue move unsafe where impl dyn Some None Ok Err Self self'.split())
 
 
+# std methods whose vstd specifications are exact (a call to one of them cannot make an obligation fail for lack of a
+# specification), so a changed body may use them although the pinned body did not
+EXACT_STD = set('len is_empty push pop is_some is_none unwrap min'.split())
+
+
 def callees(text):
     """names called in a function text (functions, methods, macros, path tails), comments and strings blanked"""
     from .extract import strip_map
@@ -230,7 +235,7 @@ def new_callees(f):
         s, e, _, _ = cur.find_fn(f.addr)
         psrc = Source(os.path.join(weave.PINNED_ROOT, f.src), f.src)
         ps, pe, _, _ = psrc.find_fn(f.addr)
-        return sorted(callees(cur.text[s:e]) - callees(psrc.text[ps:pe]))
+        return sorted(callees(cur.text[s:e]) - callees(psrc.text[ps:pe]) - EXACT_STD)
     except Exception:
         return None
 
